@@ -238,7 +238,15 @@ pub fn postconditions(ev: &EvidenceSet, o: &UnifyOutcome) -> Option<(String, Val
     // 2. one equality-free expression per variable
     for v in 0..o.n_after {
         match &o.data[v] {
-            None => {}
+            None => {
+                // A variable that exists (declared, or allocated while
+                // merging and referred to by resolved types) but has no entry
+                // in the result forest: `type_of` fails for it.
+                return Some((
+                    "no-resolved-type:variable-missing-from-forest".to_string(),
+                    json!({"variable": v, "declared_variables": ev.n_vars, "variables_after_unification": o.n_after}),
+                ));
+            }
             Some(d) => {
                 if d.len() > 1 {
                     let mut kinds: Vec<String> = d.iter().map(evidence::te_kind).collect();
